@@ -42,6 +42,8 @@ NewEnv(h, outer) == Append(h, [k |-> "env", vars |-> <<>>, outer |-> outer])
 
 \* ---------------- hoisting: declarations directly contained in a statement list
 \* lexical (let/const/class/function-in-block) go to the block scope; var goes to the function scope
+RECURSIVE FlatBodies(_)
+FlatBodies(bs) == IF bs = <<>> THEN <<>> ELSE bs[1] \o FlatBodies(Tail(bs))     \* the statements of a case block, in order
 RECURSIVE VarNames(_)
 RECURSIVE VarNamesList(_)
 VarNamesList(xs) == IF xs = <<>> THEN <<>> ELSE VarNames(xs[1]) \o VarNamesList(Tail(xs))
@@ -54,6 +56,7 @@ VarNames(n) == LET d == Nd(n) IN
     [] d.ty = "forof" -> (IF d.kind = "var" THEN <<d.name>> ELSE <<>>) \o VarNames(d.body)
     [] d.ty = "try" -> VarNames(d.a) \o (IF d.b # 0 THEN VarNames(d.b) ELSE <<>>) \o (IF d.c # 0 THEN VarNames(d.c) ELSE <<>>)
     [] d.ty = "labeled" -> VarNames(d.body)
+    [] d.ty = "switch" -> VarNamesList(FlatBodies(d.bodies))
     [] OTHER -> <<>>
 \* declare hoisted names of a statement list into scope e (block-level) and fe (function-level vars)
 RECURSIVE HoistLex(_, _, _)
@@ -202,7 +205,7 @@ Snap(h, v, d) ==
 
 \* ---------------- ghost features: which semantic situations did this step go through?
 RelOps == {"<", ">", "<=", ">="}
-LoopFrames == {"wtest", "wbody", "forofB", "forofN"}
+LoopFrames == {"wtest", "wbody", "forofB", "forofN", "forI", "forT", "forB", "forU"}
 \* frames of the current function activation only
 RECURSIVE FnFrames(_)
 FnFrames(kk) == IF kk = <<>> \/ Head(kk).f \in {"callret", "genret"} THEN <<>> ELSE <<Head(kk)>> \o FnFrames(Tail(kk))
@@ -263,12 +266,12 @@ StepFeat ==
     \cup (IF f.f = "mcallA" /\ c.c = "normal" /\ c.v.t \in {"str", "num", "nan", "inf", "nzero", "bool"} THEN {"prim_method"} ELSE {})
     \cup (IF f.f = "lasgM" /\ c.c = "normal" /\ c.v.t \in {"str", "num", "nan", "inf", "nzero", "bool"} /\ Short(Nd(f.n).op, GetProp(heap, c.v, Nd(f.n).key).v)
            THEN {"lassign_prim_short"} ELSE {})
-    \cup (IF f.f \in {"wbody", "forofB"} /\ c.c \in {"break", "continue"} /\ c.l # "" THEN {"labelled_loop_exit"} ELSE {})
+    \cup (IF f.f \in {"wbody", "forofB", "forB"} /\ c.c \in {"break", "continue"} /\ c.l # "" THEN {"labelled_loop_exit"} ELSE {})
   ELSE IF ctl.m = "ev" THEN
     LET d == Nd(ctl.n) IN
     (IF d.ty = "try" /\ \E i \in 1..Len(k) : k[i].f = "fin" /\ k[i].pend.c # "normal" THEN {"fin_nested_try"} ELSE {})
     \* a reference that resolves to a binding still in its temporal dead zone while an enclosing scope has a binding of that name
-    \cup (IF d.ty \in {"var", "typeofvar", "update"} /\ TdzShadow(d.name) THEN {"tdz_shadow"} ELSE {})
+    \cup (IF d.ty \in {"var", "typeofvar", "update", "lassignv"} /\ TdzShadow(d.name) THEN {"tdz_shadow"} ELSE {})
     \cup (IF d.ty = "this" /\ FindEnv(heap, env, "this") = NoEnv THEN {"toplevel_this"} ELSE {})
     \cup (IF d.ty = "this" /\ (\E i \in 1..Len(out) : out[i].e = "order") THEN {"this_after_suspend"} ELSE {})
     \cup
@@ -296,6 +299,29 @@ EnterList(n, xs, fresh, funcEnv) ==
      /\ IF xs = <<>> THEN /\ ctl' = RetV(U) /\ k' = <<[f |-> "popenv", e |-> env]>> \o k
         ELSE /\ ctl' = Ev(xs[1]) /\ k' = <<[f |-> "list", xs |-> xs, i |-> 1], [f |-> "popenv", e |-> env]>> \o k
      /\ UNCHANGED out
+
+\* a label directly in front of a loop names the loop: break L and continue L are addressed to it
+LblOf(kk) == IF kk # <<>> /\ Head(kk).f = "label" THEN Head(kk).l ELSE ""
+\* ---- for (init; test; update) body.  With `let` in the head every iteration runs in a fresh copy of the loop
+\* scope (CreatePerIterationEnvironment): closures made in one iteration keep that iteration's bindings
+PerIter(n) == LET d == Nd(n) IN d.init # 0 /\ Nd(d.init).ty = "decl" /\ Nd(d.init).kind = "let"
+CopyIter(h, cur, outer, name) == LET h0 == NewEnv(h, outer) IN Declare(h0, Len(h0), name, h[cur].vars[VarIdx(h, cur, name)].v, TRUE, TRUE)
+ForGoTest(n, e, lbl, rest) == LET d == Nd(n) IN
+   IF d.test = 0 THEN Go(Ev(d.body)) /\ k' = <<[f |-> "forB", n |-> n, e |-> e, lbl |-> lbl]>> \o rest
+   ELSE Go(Ev(d.test)) /\ k' = <<[f |-> "forT", n |-> n, e |-> e, lbl |-> lbl]>> \o rest
+ForAfterBody(f, rest) == LET d == Nd(f.n) IN
+   /\ IF PerIter(f.n) THEN LET h1 == CopyIter(heap, env, f.e, Nd(d.init).name) IN heap' = h1 /\ env' = Len(h1) /\ UNCHANGED out ELSE Same
+   /\ IF d.upd # 0 THEN Go(Ev(d.upd)) /\ k' = <<[f |-> "forU", n |-> f.n, e |-> f.e, lbl |-> f.lbl]>> \o rest ELSE ForGoTest(f.n, f.e, f.lbl, rest)
+\* ---- switch: case tests are evaluated in order (default skipped) until one is === the discriminant; execution then
+\* falls through the following clauses; the whole case block is one scope
+NextCase(tests, i) == IF \E j \in i..Len(tests) : tests[j] # 0 THEN CHOOSE j \in i..Len(tests) : tests[j] # 0 /\ \A m \in i..(j - 1) : tests[m] = 0 ELSE 0
+DefaultCase(tests) == IF \E j \in 1..Len(tests) : tests[j] = 0 THEN CHOOSE j \in 1..Len(tests) : tests[j] = 0 ELSE 0
+SwRun(n, j, rest) == LET d == Nd(n) xs == IF j = 0 THEN <<>> ELSE FlatBodies(SubSeq(d.bodies, j, Len(d.bodies))) IN
+   IF xs = <<>> THEN Go(RetV(U)) /\ k' = rest
+   ELSE Go(Ev(xs[1])) /\ k' = <<[f |-> "list", xs |-> xs, i |-> 1], [f |-> "switch"]>> \o rest
+SwNext(n, disc, i, rest) == LET d == Nd(n) j == NextCase(d.tests, i) IN
+   IF j # 0 THEN Go(Ev(d.tests[j])) /\ k' = <<[f |-> "swT", n |-> n, disc |-> disc, i |-> j]>> \o rest
+   ELSE SwRun(n, DefaultCase(d.tests), rest)
 
 StepEv(n) == LET d == Nd(n) IN
   CASE d.ty = "num" -> Go(RetV(N(d.v))) /\ UNCHANGED k /\ Same
@@ -364,10 +390,10 @@ StepEv(n) == LET d == Nd(n) IN
          Go(RetV(IF e = NoEnv THEN U ELSE heap[e].vars[VarIdx(heap, e, "this")].v)) /\ UNCHANGED k /\ Same
     [] d.ty = "forof" ->
          \* ForIn/OfHeadEvaluation: with a let/const binding the iterable is evaluated in a scope where the name is in its dead zone
-         IF d.kind = "var" THEN Go(Ev(d.a)) /\ Push([f |-> "forofA", n |-> n, e |-> env]) /\ Same
+         IF d.kind = "var" THEN Go(Ev(d.a)) /\ Push([f |-> "forofA", n |-> n, e |-> env, lbl |-> LblOf(k)]) /\ Same
          ELSE LET h0 == NewEnv(heap, env) e == Len(h0) IN
               /\ heap' = Declare(h0, e, d.name, U, FALSE, TRUE) /\ env' = e /\ UNCHANGED out
-              /\ Go(Ev(d.a)) /\ Push([f |-> "forofA", n |-> n, e |-> env])
+              /\ Go(Ev(d.a)) /\ Push([f |-> "forofA", n |-> n, e |-> env, lbl |-> LblOf(k)])
     [] d.ty = "seq" -> Go(Ev(d.xs[1])) /\ Push([f |-> "seq", xs |-> d.xs, i |-> 1]) /\ Same
     \* ----- statements
     [] d.ty = "exprstmt" -> Go(Ev(d.a)) /\ Push([f |-> "discard"]) /\ Same
@@ -385,8 +411,16 @@ StepEv(n) == LET d == Nd(n) IN
          /\ IF d.xs = <<>> THEN Go(RetV(U)) /\ UNCHANGED k
             ELSE Go(Ev(d.xs[1])) /\ Push([f |-> "list", xs |-> d.xs, i |-> 1])
     [] d.ty = "if" -> Go(Ev(d.a)) /\ Push([f |-> "if", n |-> n]) /\ Same
-    [] d.ty = "while" -> Go(Ev(d.a)) /\ Push([f |-> "wtest", n |-> n, lbl |-> ""]) /\ Same
-    [] d.ty = "dowhile" -> Go(Ev(d.b)) /\ Push([f |-> "wbody", n |-> n, lbl |-> ""]) /\ Same
+    [] d.ty = "while" -> Go(Ev(d.a)) /\ Push([f |-> "wtest", n |-> n, lbl |-> LblOf(k)]) /\ Same
+    [] d.ty = "dowhile" -> Go(Ev(d.b)) /\ Push([f |-> "wbody", n |-> n, lbl |-> LblOf(k)]) /\ Same
+    [] d.ty = "for" ->
+         IF d.init = 0 THEN ForGoTest(n, env, LblOf(k), k) /\ Same
+         ELSE IF PerIter(n) THEN      \* the head's let binding lives in a scope of its own; it is in its dead zone while the initialiser runs
+              LET h0 == NewEnv(heap, env) e == Len(h0) IN
+              /\ heap' = Declare(h0, e, Nd(d.init).name, U, FALSE, TRUE) /\ env' = e /\ UNCHANGED out
+              /\ Go(Ev(d.init)) /\ Push([f |-> "forI", n |-> n, e |-> env, lbl |-> LblOf(k)])
+         ELSE Go(Ev(d.init)) /\ Push([f |-> "forI", n |-> n, e |-> env, lbl |-> LblOf(k)]) /\ Same
+    [] d.ty = "switch" -> Go(Ev(d.a)) /\ Push([f |-> "swD", n |-> n]) /\ Same
     [] d.ty = "break" -> Go(Ret(Abrupt("break", U, d.label))) /\ UNCHANGED k /\ Same
     [] d.ty = "continue" -> Go(Ret(Abrupt("continue", U, d.label))) /\ UNCHANGED k /\ Same
     [] d.ty = "return" -> IF d.a = 0 THEN Go(Ret(Abrupt("return", U, ""))) /\ UNCHANGED k /\ Same
@@ -433,6 +467,9 @@ StepRet == LET c == ctl.c IN
           [] f.f = "wbody" /\ c.c = "continue" /\ Mine(f, c) ->
                LET d == Nd(f.n) IN Go(Ev(d.a)) /\ k' = <<[f |-> "wtest", n |-> f.n, lbl |-> f.lbl]>> \o rest /\ Same
           [] f.f = "label" /\ c.c = "break" /\ c.l = f.l -> Go(RetV(U)) /\ k' = rest /\ Same
+          [] f.f = "forB" /\ c.c = "break" /\ Mine(f, c) -> Go(RetV(U)) /\ k' = rest /\ env' = f.e /\ UNCHANGED <<heap, out>>
+          [] f.f = "forB" /\ c.c = "continue" /\ Mine(f, c) -> ForAfterBody(f, rest)
+          [] f.f = "switch" /\ c.c = "break" /\ c.l = "" -> Go(RetV(U)) /\ k' = rest /\ Same
           [] f.f = "forofB" /\ c.c = "break" /\ Mine(f, c) -> Go(RetV(U)) /\ k' = rest /\ Same
           [] f.f = "forofB" /\ c.c = "continue" /\ Mine(f, c) -> Go(RetV(U)) /\ k' = <<[f EXCEPT !.f = "forofN"]>> \o rest /\ Same
           [] f.f = "try" ->
@@ -467,7 +504,10 @@ StepRet == LET c == ctl.c IN
                ELSE LET r == HasProp(heap, v, KeyOf(heap, f.l)) IN
                     Go(IF r = "unmodelled" THEN Ret(Abrupt("unmodelled", U, "")) ELSE RetV(B(r = "t"))) /\ k' = rest /\ Same
           [] f.f = "binR" /\ Nd(f.n).op # "in" -> LET r == Bin(Nd(f.n).op, f.l, v) IN
-                             Go(IF r.t = "big" THEN Ret(Abrupt("unmodelled", U, "")) ELSE RetV(r)) /\ k' = rest /\ Same
+                             \* error objects are modelled by their class only: whether two of them are the same object is not known
+                             Go(IF r.t = "big" \/ (Nd(f.n).op \in {"==", "!=", "===", "!=="} /\ f.l.t = "err" /\ v.t = "err")
+                                   \* the text of an error or of a function is engine-specific: results that depend on it are outside the model
+                                   \/ (Nd(f.n).op \in {"+", "<", "<=", ">", ">="} /\ (f.l.t \in {"fun", "err"} \/ v.t \in {"fun", "err"})) THEN Ret(Abrupt("unmodelled", U, "")) ELSE RetV(r)) /\ k' = rest /\ Same
           [] f.f = "logical" ->
                LET op == Nd(f.n).op
                    short == CASE op = "&&" -> ~ToBoolean(v) [] op = "||" -> ToBoolean(v) [] op = "??" -> v.t \notin {"undef", "null"} IN
@@ -539,7 +579,7 @@ StepRet == LET c == ctl.c IN
           [] f.f = "forofA" ->
                IF ~(v.t = "ref" /\ heap[v.a].k = "arr") THEN
                   (IF v.t = "str" \/ IsGen(heap, v) THEN Go(Ret(Abrupt("unmodelled", U, ""))) ELSE Go(Ret(Throw(Err("TypeError"))))) /\ k' = rest /\ env' = f.e /\ UNCHANGED <<heap, out>>
-               ELSE Go(RetV(U)) /\ k' = <<[f |-> "forofN", n |-> f.n, arr |-> v.a, i |-> 0, lbl |-> "", e |-> f.e]>> \o rest /\ env' = f.e /\ UNCHANGED <<heap, out>>
+               ELSE Go(RetV(U)) /\ k' = <<[f |-> "forofN", n |-> f.n, arr |-> v.a, i |-> 0, lbl |-> f.lbl, e |-> f.e]>> \o rest /\ env' = f.e /\ UNCHANGED <<heap, out>>
           [] f.f = "forofN" ->
                LET d == Nd(f.n) a == heap[f.arr].e IN
                IF f.i >= Len(a) THEN Go(RetV(U)) /\ k' = rest /\ env' = f.e /\ UNCHANGED <<heap, out>>
@@ -598,6 +638,22 @@ StepRet == LET c == ctl.c IN
           [] f.f = "wtest" -> IF ToBoolean(v) THEN Go(Ev(Nd(f.n).b)) /\ k' = <<[f |-> "wbody", n |-> f.n, lbl |-> f.lbl]>> \o rest /\ Same
                               ELSE Go(RetV(U)) /\ k' = rest /\ Same
           [] f.f = "wbody" -> Go(Ev(Nd(f.n).a)) /\ k' = <<[f |-> "wtest", n |-> f.n, lbl |-> f.lbl]>> \o rest /\ Same
+          [] f.f = "forI" ->
+               IF PerIter(f.n) THEN LET h1 == CopyIter(heap, env, f.e, Nd(Nd(f.n).init).name) IN
+                                    heap' = h1 /\ env' = Len(h1) /\ UNCHANGED out /\ ForGoTest(f.n, f.e, f.lbl, rest)
+               ELSE ForGoTest(f.n, f.e, f.lbl, rest) /\ Same
+          [] f.f = "forT" -> IF ToBoolean(v) THEN Go(Ev(Nd(f.n).body)) /\ k' = <<[f EXCEPT !.f = "forB"]>> \o rest /\ Same
+                             ELSE Go(RetV(U)) /\ k' = rest /\ env' = f.e /\ UNCHANGED <<heap, out>>
+          [] f.f = "forB" -> ForAfterBody(f, rest)
+          [] f.f = "forU" -> ForGoTest(f.n, f.e, f.lbl, rest) /\ Same
+          [] f.f = "swD" ->
+               LET d == Nd(f.n) h0 == NewEnv(heap, env) e == Len(h0) IN
+               /\ heap' = HoistLex(h0, e, FlatBodies(d.bodies)) /\ env' = e /\ UNCHANGED out
+               /\ SwNext(f.n, v, 1, <<[f |-> "popenv", e |-> env]>> \o rest)
+          [] f.f = "swT" ->
+               IF f.disc.t = "err" /\ v.t = "err" THEN Go(Ret(Abrupt("unmodelled", U, ""))) /\ k' = rest /\ Same
+               ELSE (IF StrictEq(f.disc, v) THEN SwRun(f.n, f.i, rest) ELSE SwNext(f.n, f.disc, f.i + 1, rest)) /\ Same
+          [] f.f = "switch" -> Go(RetV(U)) /\ k' = rest /\ Same
           [] f.f = "return" -> Go(Ret(Abrupt("return", v, ""))) /\ k' = rest /\ Same
           [] f.f = "throw" -> Go(Ret(Throw(v))) /\ k' = rest /\ Same
           [] f.f = "label" -> Go(RetV(U)) /\ k' = rest /\ Same
